@@ -52,13 +52,74 @@ def programs(tier: str):
             for tc in CANCELS:
                 for batch in (1, 2):
                     yield {"d": d, "kind": kind, "tc": tc, "batch": batch}
+    # the wrapped function is itself a wrapper object (another timeout with a long deadline, a
+    # throttle that never throttles): the outer deadline still applies
+    for inner in ("timeout10", "throttle"):
+        for d in (1, 3):
+            for kind in ("value", "exc", "ignore1"):
+                for tc in (None, 1):
+                    yield {"d": d, "kind": kind, "tc": tc, "batch": 1, "inner": inner}
+    # two overlapping calls through one wrapped function, each with its own deadline
+    for da in (1, 3):
+        for db in (1, 3):
+            for off in (0, 0.5, 1.5):
+                yield {"pair": [da, db], "offset": off}
 
 
 def explore_config(tier: str, program) -> dict:
     return {}
 
 
+def _pair(program, ch: Chooser) -> Result:
+    (da, db), off = program["pair"], program["offset"]
+    w = World(ch)
+    viols: list[dict] = []
+    try:
+        seen: dict = {}
+
+        @timeout(T)
+        async def fn(name, d):
+            try:
+                await asyncio.sleep(d)
+                return name
+            except asyncio.CancelledError:
+                seen[name] = "cancelled"
+                raise
+
+        out: dict = {}
+
+        async def caller(name, d):
+            t0 = now() - START
+            try:
+                out[name] = ("value", await fn(name, d), now() - START - t0)
+            except TimeoutError:
+                out[name] = ("timeout", None, now() - START - t0)
+            except BaseException as exc:  # noqa: BLE001
+                out[name] = ("other", type(exc).__name__, now() - START - t0)
+
+        ta = w.task(caller("A", float(da)), name="A")
+        tasks = {"A": ta}
+        w.loop.call_at(START + off, lambda: tasks.__setitem__("B", w.task(caller("B", float(db)), name="B")))
+        hang = False
+        try:
+            w.run()
+        except Livelock:
+            hang = True
+        for name, d in (("A", da), ("B", db)):
+            t = tasks.get(name)
+            want = ("value", name, float(d)) if d < T else ("timeout", None, T)
+            if hang or t is None or not t.done():
+                viols.append(viol("termination", f"overlapping-calls/{name}-hangs", "call terminates", f"pending; other call finished: {out}"))
+            elif out.get(name) != want:
+                viols.append(viol("outcome", f"overlapping-calls/{name}", list(want), list(out.get(name, ()))))
+        return Result(f"pair/{da}/{db}", True, viols, {"trace": w.trace, "out": {k: list(v) for k, v in out.items()}})
+    finally:
+        w.close()
+
+
 def execute(program, ch: Chooser) -> Result:  # noqa: C901, PLR0912, PLR0915
+    if "pair" in program:
+        return _pair(program, ch)
     d, kind, tc, batch = program["d"], program["kind"], program["tc"], program["batch"]
     w = World(ch, batch=batch)
     log: list = []
@@ -68,7 +129,6 @@ def execute(program, ch: Chooser) -> Result:  # noqa: C901, PLR0912, PLR0915
         base = FBase("own-base")
         st = {"started": False, "saw_cancel": False, "ended": False, "end_t": None}
 
-        @timeout(T)
         async def fn(a, *, k):
             st["started"] = True
             assert (a, k) == ("arg", "kw")
@@ -92,6 +152,13 @@ def execute(program, ch: Chooser) -> Result:  # noqa: C901, PLR0912, PLR0915
                 st["ended"] = True
                 st["end_t"] = now() - START
 
+        if program.get("inner") == "timeout10":
+            fn = timeout(10.0)(fn)
+        elif program.get("inner") == "throttle":
+            from haiway.helpers.throttling import throttle
+
+            fn = throttle(limit=5, period=1.0)(fn)
+        fn = timeout(T)(fn)
         res: dict = {}
 
         async def caller():
